@@ -88,7 +88,10 @@ def str_body(rng, maxtok):
         elif k == 7:
             toks.append(b"\\u" + "".join(rng.choice("0123456789abcdefABCDEF") for _ in range(rng.choice([4, 4, 4, 0, 1, 2, 3, 5]))).encode())
         elif k == 8:
-            cp = rng.choice([rng.below(0x80), rng.below(0x800), rng.below(0x10000), rng.below(0x110000), rng.range(0xD800, 0xDFFF),
+            # code points of the supplementary planes whose LOW 16 bits look like a surrogate / a boundary (masks and truncations to 16 bits show here)
+            low = rng.choice([0xD800, 0xDBFF, 0xDC00, 0xDFFF, rng.range(0xD800, 0xDFFF), 0xFFFF, 0xFFFE, 0x0000, 0x007F, 0x0080, 0x07FF, 0x0800])
+            cp = rng.choice([(rng.range(1, 16) << 16) | low, (rng.range(1, 16) << 16) | low,
+                             rng.below(0x80), rng.below(0x800), rng.below(0x10000), rng.below(0x110000), rng.range(0xD800, 0xDFFF),
                              rng.range(0x110000, 0x1FFFFF), rng.range(0x200000, 0xFFFFFFFF), 0xFFFFFFFF, 0x10FFFF, 0x7FFFFFFF, 0x80000000])
             toks.append(b"\\U%08X" % cp)
         elif k == 9:
